@@ -9,6 +9,7 @@ import (
 	"github.com/form3tech-oss/f1/v2/internal/trigger/api"
 	"github.com/form3tech-oss/f1/v2/internal/trigger/users"
 	"github.com/form3tech-oss/f1/v2/internal/ui"
+	"github.com/form3tech-oss/f1/v2/internal/verifhook"
 	"github.com/form3tech-oss/f1/v2/internal/workers"
 )
 
@@ -34,6 +35,8 @@ func runStage(
 ) {
 	setEnvs(stage.Params, output)
 	defer unsetEnvs(stage.Params, output)
+	verifhook.Yield("file.stage.begin", stage.Params, int64(stage.StageDuration))
+	defer verifhook.Yield("file.stage.end", stage.Params, int64(stage.StageDuration))
 
 	// stop the stage early to avoid starting a new tick
 	stageCtx, stageCancel := context.WithTimeout(ctx, stage.StageDuration-safeDurationBeforeNextStage)
